@@ -345,3 +345,14 @@ def precomputed_and_1d(ctx, N):
             ctx.shape_is("Shape", "1-D targets: W is a 2-D (n_samples, 1) array", a[2], ("N", 1), site, "1-D y")
             ctx.shape_is("Shape", "1-D targets: Yhat is a 2-D (n_samples, 1) array", a[1], ("N", 1), site, "1-D y")
         ctx.no_shape_conflicts("Shape", "fit with 1-D targets", I, lo, site, "1-D y")
+        # readers after a fit with a 1-D target: predictions have the shape of the target, the score
+        # compares like with like
+        ctx.shape_is("Shape", "1-D targets: pty_ maps the latent space to one target (n_components,)", ctx.attr(st, o, "pty_"), ("K",), site, "1-D y")
+        lo = len(I.events)
+        rp = ctx.call_method(I, st, o, "predict", arr("Xq", "V", "M"))
+        site_p = ctx.site(P.method(cls, "predict"))
+        ctx.shape_is("Shape", "1-D targets: predict returns one value per sample (n_samples,)", rp, ("V",), site_p, "1-D y")
+        ctx.no_shape_conflicts("Shape", "predict after a fit with 1-D targets", I, lo, site_p, "1-D y")
+        lo = len(I.events)
+        ctx.call_method(I, st, o, "score", arr("Xs", "V", "M"), arr("ys", "V"))
+        ctx.no_shape_conflicts("Shape", "score with 1-D targets (prediction and target are both (n_samples,))", I, lo, ctx.site(P.method(cls, "score")), "1-D y")
